@@ -238,6 +238,10 @@ func runC02(c *Ctx) {
 func runC08(c *Ctx) {
 	g := c.Gen
 	rc := &router.RealmConfig{URI: "r1", AnonymousAuth: true, AllowDisclose: true}
+	if g.Chance(1, 3) {
+		// event history on the topics of the workload: their subscriptions outlive their subscribers
+		rc.TopicEventHistoryConfigs = []*router.TopicEventHistoryConfig{{Topic: "t.a", MatchPolicy: "exact", Limit: 3}, {Topic: "t.", MatchPolicy: "prefix", Limit: 5}}
+	}
 	w, err := NewWorld(c.S, &router.Config{RealmConfigs: []*router.RealmConfig{rc}})
 	if err != nil {
 		c.Res.Tooling = "NewRouter: " + err.Error()
